@@ -32,7 +32,7 @@ LEVEL_NOTE = ('pydicom is trusted to read the stored Part-10 file back; PDUs mix
 RULE = ('case = (message class, data length, fragment sizes, composition into PDUs, reception mode); distinct = same '
         'tuple; non-trivial = at least two fragments or file-backed reception')
 ASSUMPTIONS = ['fragment streams are well-formed as in C06 (command fragments first, one last fragment each)']
-REQUIRED = ['oracle.completion-exact', 'oracle.message-content', 'oracle.file-backed', 'oracle.via-provider',
+REQUIRED = ['oracle.hundreds-of-command-fragments', 'oracle.completion-exact', 'oracle.message-content', 'oracle.file-backed', 'oracle.via-provider',
             'oracle.consecutive-messages']
 
 MAXN = {'quick': 7, 'thorough': 11}
@@ -55,6 +55,7 @@ def plan(tier, seed):
             specs.append({'name': 'random', 'lo': p[0], 'hi': p[-1] + 1})
     specs.append({'name': 'file'})
     specs.append({'name': 'provider'})
+    specs.append({'name': 'long-commands'})
     return specs
 
 
@@ -94,6 +95,16 @@ def run_shard(spec, tier, seed):
                             run_case(res, {'kind': kind, 'cls': 'CStoreRQMessage', 'data': True,
                                            'nfrag': nfrag, 'comp': comp, 'seed': seed, 'ts': ts,
                                            'source': 'ref'}, tmpdir)
+        elif spec['name'] == 'long-commands':
+            # command sets of several hundred bytes (N-GET-RQ with a long Attribute Identifier
+            # List) arriving in fragments of one or two bytes: hundreds of command fragments
+            for ntags in (40, 70, 130) if tier == 'quick' else (40, 64, 70, 100, 130, 250, 500):
+                for nfrag in ('max', 'half'):
+                    for comp in ('one', 'each', 'random'):
+                        for kind in ('memory', 'provider'):
+                            run_case(res, {'kind': kind, 'state': 'Sta6', 'cls': 'NGetRQMessage',
+                                           'data': False, 'nfrag': nfrag, 'comp': comp, 'seed': seed,
+                                           'source': 'lib', 'long': ntags}, tmpdir)
         else:
             for state in ('Sta6', 'Sta7'):
                 for name in msgs.CLASS_NAMES:
@@ -161,9 +172,16 @@ def build_fragments(case, r):
         msg, values = msgs.make(name, r, unset_prob=0.2)
         if data is not None:
             msg.data_set = data
+        if case.get('long'):
+            msg.command_set.AttributeIdentifierList = [r.randrange(0x00080000, 0x7FFFFFFF)
+                                                       for _ in range(case['long'])]
         msg.set_length()
         from pynetdicom2 import dsutils
         command = dsutils.encode(msg.command_set, True, True)
+        if nfrag == 'max':
+            nfrag = len(command)
+        elif nfrag == 'half':
+            nfrag = len(command) // 2
     else:
         command, fields = msgs.reference_command(name, r, with_data=data is not None)
     # cut into exactly nfrag fragments: ncmd command + ndata data fragments
@@ -185,13 +203,19 @@ def build_fragments(case, r):
     pdvs = R.fragment(command, data, 0, ctx, cmd_sizes=cut(command, ncmd),
                       data_sizes=cut(data, ndata) if data is not None else None)
     assert len(pdvs) == nfrag, (len(pdvs), nfrag)
+    if case.get('long'):
+        case['nfrag'] = nfrag
+        case['comp'] = {'one': [nfrag], 'each': [1] * nfrag}.get(case['comp']) or random_composition(r, nfrag)
     return pdvs, command, data, ctx
 
 
 def run_case(res, case, tmpdir):
     from pynetdicom2 import fsm, pdu as P
+    case = dict(case)
     r = rng(case['seed'], 'c07', case['cls'], case['data'], case['nfrag'], tuple(case['comp']),
             case['kind'], case.get('salt'))
+    if case.get('long'):
+        res.count('oracle.hundreds-of-command-fragments')
     built = build_fragments(case, r)
     if built is None:
         return
@@ -385,7 +409,7 @@ def via_provider(res, case, where, raws, complete_at, name, command, data, ctx):
     stream = list(raws)
     for k in range(2):
         other = dict(case, cls=r.choice(msgs.CLASS_NAMES), data=r.random() < 0.6,
-                     nfrag=r.choice([2, 3, 4]), kind='memory', source='ref')
+                     nfrag=r.choice([2, 3, 4]), kind='memory', source='ref', long=None)
         built = build_fragments(other, r)
         if built is None:
             continue
